@@ -3,7 +3,7 @@
    count_at / quantile are the definitions of Model/C13.v whose binary64 instance is compared
    bit-for-bit with the implementation. *)
 From Coq Require Import QArith ZArith List.
-From Orso Require Import Model.C13 Model.C13_Q Proofs.C13 Proofs.C13_hist Proofs.C14 Proofs.C14_quantile.
+From Orso Require Import Model.C13 Model.C13_Q Proofs.C13 Proofs.C13_hist Proofs.C14 Proofs.C14_quantile Model.C14 Proofs.C14_Reject.
 Import ListNotations.
 Open Scope Q_scope.
 
@@ -121,3 +121,45 @@ Theorem C14_quantile_total :
   exists x, quantile QA s q = ANum x.
 Proof. exact quantile_total. Qed.
 Print Assumptions C14_quantile_total.
+
+(* ---- round 7: sessions with REJECTED calls (update with a count <= 0 raises ValueError, dump of an
+   empty histogram raises, ...).  Stated about Model/C13.v's [exec] / [run_prog], the history machine the
+   correspondence evaluates, for any arithmetic [A] (binary64 and exact alike). ---- *)
+
+(* a call that raises leaves every histogram of the session as it was: its bins, its minimum and
+   maximum and its gap cache - so the theorems above, which speak about a state, hold after it for
+   the very same minimum / maximum / total as before it *)
+Theorem C14_rejected_call_changes_nothing :
+  forall (T : Type) (A : arith T) (e : @env T) (o : @op T),
+  snd (exec A e o) = BRaise -> fst (exec A e o) = e.
+Proof. exact @exec_raise_env_unchanged. Qed.
+Print Assumptions C14_rejected_call_changes_nothing.
+
+(* update with a count that is not strictly positive is such a call, whatever its value *)
+Theorem C14_nonpositive_update_is_rejected :
+  forall (T : Type) (A : arith T) (e : @env T) k v c,
+  (c <= 0)%Z -> exec A e (OUpd k v c) = (e, BRaise).
+Proof. exact @exec_update_nonpositive. Qed.
+Print Assumptions C14_nonpositive_update_is_rejected.
+
+(* the answers of a session are those of the session with its rejected calls deleted: count_at /
+   quantile asked after a rejected call answer exactly as if the call had never been made *)
+Theorem C14_answers_ignore_rejected_calls :
+  forall (T : Type) (A : arith T) (p : list (@op T)) (e : @env T),
+  filter (fun x => negb (is_raise x)) (run_prog A e p) = run_prog A e (prune A e p) /\
+  forallb (fun x => negb (is_raise x)) (run_prog A e (prune A e p)) = true.
+Proof. intros T A p e. split; [apply run_prog_prune | apply prune_no_raise]. Qed.
+Print Assumptions C14_answers_ignore_rejected_calls.
+
+(* non-vacuity: values 10 and 20, then two rejected updates far outside [10, 20]; count_at is still None
+   at 1000 and at -1000, 0 at 10, the total at 20, and quantile 0 / 1 are 10 / 20 *)
+Example C14_rejected_session_example :
+  let p := [ONew 0 4; OUpd 0 (10 # 1) 1%Z; OUpd 0 (20 # 1) 2%Z;
+            OUpd 0 (1000 # 1) 0%Z; OUpd 0 (- (1000) # 1) (-3)%Z;
+            OCountAt 0 (1000 # 1); OCountAt 0 (- (1000) # 1); OCountAt 0 (10 # 1); OCountAt 0 (20 # 1);
+            OQuantile 0 0; OQuantile 0 1] in
+  prune QA [] p = [ONew 0 4; OUpd 0 (10 # 1) 1%Z; OUpd 0 (20 # 1) 2%Z;
+                   OCountAt 0 (1000 # 1); OCountAt 0 (- (1000) # 1); OCountAt 0 (10 # 1); OCountAt 0 (20 # 1);
+                   OQuantile 0 0; OQuantile 0 1] /\
+  skipn 5 (run_prog QA [] p) = [BAns ANone; BAns ANone; BAns (AInt 0); BAns (AInt 3); BAns (ANum (10 # 1)); BAns (ANum (20 # 1))].
+Proof. vm_compute. split; reflexivity. Qed.
